@@ -9,6 +9,8 @@ mod layout;
 mod front;
 mod core;
 mod tables;
+mod literal;
+mod spans;
 
 use std::io::{BufRead, Write};
 use std::panic::{catch_unwind, AssertUnwindSafe};
@@ -38,6 +40,8 @@ fn main() {
         "front" => front::handle,
         "core" => core::handle,
         "tables" => tables::handle,
+        "literal" => literal::handle,
+        "span" => spans::handle,
         _ => {
             eprintln!("unknown command {cmd}");
             std::process::exit(2);
